@@ -139,6 +139,14 @@ POOL = [
     # characters whose lower(), casefold() and upper() forms disagree (Cherokee, dotted capital I, sharp s, Kelvin)
     ("cherokee-small", "\uab70xcel"), ("cherokee-capital", "\u13a0eader"), ("dotted-capital-i", "\u0130"),
     ("sharp-s", "\u00df"), ("kelvin-sign", "\u212a"), ("final-sigma", "\u03a3\u03c2"),
+    # an indented line, then a NUL on a line of its own
+    ("indent-then-nul", "1\n 2\n\x00"), ("tab-indent-then-nul", "customer_id\n\t,kind\n\x00"),
+    # nesting deeper than the interpreter's recursion limit
+    ("parens-deep", {"repeat": "(", "n": 3000}), ("parens-deep-closed", {"nest": ["(", "a", ")"], "n": 3000}),
+    ("brackets-deep-closed", {"nest": ["[", "1", "]"], "n": 3000}),
+    # exponents no C int holds, and exponents that make a number of too many digits to spell out
+    ("exp-beyond-c-int", "1e-3000000000"), ("exp-beyond-c-int-range", "1e-3000000000...5"),
+    ("exp-positive-beyond-c-int", "0...1e3000000000"),
 ]
 POOL_NAMES = [name for name, _ in POOL]
 assert len(set(POOL_NAMES)) == len(POOL_NAMES)
@@ -149,6 +157,13 @@ def enc_value(value):
 
 
 def dec_value(value):
+    if isinstance(value, dict) and "nest" in value:
+        nest = value["nest"]
+        if sorted(value) != ["n", "nest"] or not isinstance(nest, list) or len(nest) != 3 \
+                or not all(isinstance(t, str) and len(t) <= 4 for t in nest) or not isinstance(value["n"], int) \
+                or not 0 <= value["n"] <= 5000:
+            raise HarnessError("malformed value %r" % (value,))
+        return nest[0] * value["n"] + nest[1] + nest[2] * value["n"]
     if isinstance(value, dict):
         if sorted(set(value) - {"prefix"}) != ["n", "repeat"] or not isinstance(value["repeat"], str) \
                 or len(value["repeat"]) != 1 or not isinstance(value["n"], int) or not 0 <= value["n"] <= 20000 \
@@ -300,6 +315,12 @@ def _midsize_number(text):
     return False
 
 
+def _harmless_rule(text):
+    """A RegEx / Pattern rule that cannot take long to match: short and without nested quantifiers, or without any
+    quantifier or escape at all (matching is linear then)."""
+    return (len(text) <= 64 and not _NESTED_QUANTIFIER.search(text)) or not set(text) & set("*+?{\\")
+
+
 def value_allowed(fmt, r, c, text):
     """Harness safety filter for one cell of the base CID of ``fmt`` (see module text)."""
     row = base_rows(fmt)[r]
@@ -310,9 +331,9 @@ def value_allowed(fmt, r, c, text):
     if kind == "F" and column == "length":
         return not _midsize_number(text)
     if kind == "F" and column == "rule" and row[5] == "RegEx":
-        return len(text) <= 64 and not _NESTED_QUANTIFIER.search(text)
+        return _harmless_rule(text)
     if kind == "F" and column == "rule" and row[5] == "Pattern":
-        return len(text) <= 64
+        return len(text) <= 64 or _harmless_rule(text)
     return True
 
 
@@ -349,7 +370,7 @@ def _guard_rows(fmt, rows):
             if _midsize_number(row[4]):
                 raise HarnessError("harness safety: length %r (row %d)" % (row[4][:60], r))
             if row[5].strip().split(".")[-1] in ("RegEx", "Pattern") or original[5] in ("RegEx", "Pattern"):
-                if len(row[6]) > 64 or _NESTED_QUANTIFIER.search(row[6]):
+                if not _harmless_rule(row[6]):
                     raise HarnessError("harness safety: rule %r (row %d)" % (row[6][:60], r))
 
 
